@@ -185,13 +185,17 @@ class TagError(Exception):
     pass
 
 
-EXC_KINDS = ['tag', 'value', 'key', 'zero', 'os', 'lookup', 'deep']
+EXC_KINDS = ['tag', 'value', 'key', 'zero', 'os', 'lookup', 'deep', 'evald']
 
 
 def _raise_deep(n, tag):
     if n <= 0:
         raise ValueError(tag, 'deep')
     _raise_deep(n - 1, tag)
+
+
+def _raise_value(*args):
+    raise ValueError(*args)
 
 
 def _raise(exck, cid, pos):
@@ -212,6 +216,11 @@ def _raise(exck, cid, pos):
         raise StopIteration(tag)
     if exck == 'deep':
         _raise_deep(700, tag)       # raised 700 frames down: a very deep remote traceback
+    if exck == 'evald':
+        # the failure passes through a frame of evaluated code whose globals
+        # hold neither __name__ nor __file__
+        eval(compile('f(t, "evald")', '<c02-evaluated>', 'eval'),
+             {'__builtins__': {}, 'f': _raise_value, 't': tag})
     raise RuntimeError('bad exception kind %r' % (exck,))
 
 
